@@ -1,14 +1,15 @@
 #!/bin/bash
-# tools/thorough_all.sh <outdir> — for `vp run --with-repo`: builds the snapshot and runs every check's
+# tools/thorough_all.sh <outdir> [ids…] — for `vp run --with-repo`: builds the snapshot and runs every check's
 # thorough tier on the unchanged snapshot of /repo; summary lines go to <outdir>/thorough.txt.
-out=$1; mkdir -p "$out"
+out=$1; shift; mkdir -p "$out"
 R=${VP_RUN_REPO:-/repo}
 export VERIF_REPO=$R
 export GOFLAGS=-mod=mod GOPROXY=off GOSUMDB=off GOTOOLCHAIN=local CGO_ENABLED=0
 [ "$R" != /repo ] && (cd harness && go mod edit -replace github.com/rogpeppe/go-internal=$R)
 ./setup.sh > "$out/setup.log" 2>&1
 : > "$out/thorough.txt"
-for p in $(python3 -c "import json;print(' '.join(sorted(json.load(open('props.json')))))"); do
+ids="$*"; [ -z "$ids" ] && ids=$(python3 -c "import json;print(' '.join(sorted(json.load(open('props.json')))))")
+for p in $ids; do
   s=$(date +%s)
   ./check $p thorough 2>&1 | tail -3 >> "$out/thorough.txt"
   echo "  ($p took $(( $(date +%s) - s )) s)" >> "$out/thorough.txt"
